@@ -175,7 +175,7 @@ def deepen(ob, cfile, wd, timeout, mem):
     for l in loops:
         fn = l.rsplit('.', 1)[0]; b = start
         for pat, n in spec.items():
-            if pat not in ('default', 'auto', 'start', 'max') and re.search(pat, fn): b = n
+            if pat not in ('default', 'auto', 'start', 'max', 'rounds') and re.search(pat, fn): b = n
         bounds[l] = b
     rspec = ob.get('recursion') or {}
     for fn in meta.get('recursive', []):
@@ -203,7 +203,7 @@ def deepen(ob, cfile, wd, timeout, mem):
             key = '%s.%s' % (m.group(1), m.group(2)) if m else re.sub(r'\.recursion$', '', n)
             if key in bounds and bounds[key] < cap:
                 bounds[key] = min(cap, bounds[key] * 2); grew = True
-        if not grew or rounds > 8:
+        if not grew or rounds > spec.get('rounds', 8):
             raise Inconclusive('loop bound cap %d reached for %s' % (cap, failed[:4]))
 
 def unwindset(ob, cfile, wd):
